@@ -53,9 +53,12 @@ Init == \/ /\ Mode = "rt" /\ s = <<>> /\ n = 0
 Next == UNCHANGED <<g, s, n>>
 Spec == Init /\ [][Next]_<<g, s, n>>
 
+\* offsets for a token sequence; the linear-time tiling check agrees with concatenation
+WithOffsets(t) == LET off[i \in 1..Len(t)] == IF i = 1 THEN 1 ELSE off[i - 1] + Len(t[i - 1].s)
+                  IN [i \in 1..Len(t) |-> [t |-> t[i].t, s |-> t[i].s, o |-> off[i]]]
 RoundTripShared == Mode = "rt" =>
   LET t == Write(g, "shared") r == Read(t) IN
-  LexOK(t, Flat(t)) /\ r.ok /\ WellFormed(r.g) /\ Iso(g, r.g) /\ MatchIso(g, r.g)
+  LexOK(t, Flat(t)) /\ LexOKo(WithOffsets(t), Flat(t)) /\ ~Tiles(WithOffsets(t), Flat(t) \o <<32>>) /\ r.ok /\ WellFormed(r.g) /\ Iso(g, r.g) /\ MatchIso(g, r.g)
 RoundTripCyclic == Mode = "rt" =>
   LET t == Write(g, "cyclic") r == Read(t) IN
   LexOK(t, Flat(t)) /\ r.ok /\ Equal(g, r.g) /\ MatchEqual(g, r.g) /\ (Shared(g) \/ Iso(g, r.g))
